@@ -8,7 +8,7 @@ RULE = ("universe of 4 suites {3=(1,1,1), 17=(3,4,1), (2,2,1), (1,4,1)}: every o
         "advertises, ErrNoSupportedCipherSuite if none, and a single preference is proposed with no discovery traffic.  Confirmation: "
         "the algorithm triple of the Open Session Response is overwritten with every triple of {0..7, 0x30, 0x3f}^3 (and the wildcard "
         "form): a session is returned iff the triple equals the proposal (and then uses it), anything else is an error, never a "
-        "panic.  tie: Coq determine / new_session.  distinct by (preferences, advertised set) / (suite, triple)")
+        "panic.  Sequences of three establishments on one connection with the advertised set changed in between.  tie: Coq determine / new_session.  distinct by (preferences, advertised set) / (suite, triple)")
 
 UNIVERSE = [(1, 1, 1), (3, 4, 1), (2, 2, 1), (1, 4, 1)]
 IDS = {(1, 1, 1): 3, (3, 4, 1): 17, (2, 2, 1): 6, (1, 4, 1): 200}
@@ -114,6 +114,52 @@ def run(ch, build):
                 ch.violation(desc, {"scenario": scn, "what": "a session was returned although the BMC confirmed other algorithms", "session": s})
         elif same:
             ch.violation(desc, {"scenario": scn, "what": "confirmation of exactly the proposed algorithms was refused", "err": res.get("errtext")})
+    # --- every authentication algorithm number 0..63 proposed as the only preference to a BMC that confirms it and answers
+    # RAKP Message 1 with status OK: the three implemented ones aside, the result is an error - never a panic, never a session ---
+    rakp2 = bytes([0, 0, 0, 0, 1, 0, 0, 0]) + bytes(range(16)) + bytes(range(16, 32)) + bytes(20)
+    fake = (bytes.fromhex("0600ff07" "0613" "00000000" "00000000") + len(rakp2).to_bytes(2, "little") + rakp2).hex()
+    ascns = [{"bmc": conn.default_bmc(seed=8, suites=[[100, a, 1, 1]]), "timeout_ms": 40, "alg": a,
+              "steps": [hs.open_step(suites=[(a, 1, 1)], script=["ok", "raw:" + fake])]} for a in range(64) if a not in (1, 2, 3)]
+    for scn, out in zip(ascns, conn.run_scenarios(ascns)):
+        res = out["steps"][0]
+        ch.note_case("c12-unknown-auth", str(scn["alg"]))
+        desc = {"kind": "c12-unknown-auth", "alg": scn["alg"]}
+        if res.get("panic") or res["err"] == "panic":
+            ch.violation(dict(desc, kind="panic"), {"scenario": scn, "panic": res.get("panic"),
+                         "what": "authentication algorithm %d, confirmed by the BMC, made the library panic" % scn["alg"]})
+        elif res["err"] == "nil":
+            ch.violation(desc, {"scenario": scn, "what": "a session was returned for the unimplemented authentication algorithm %d" % scn["alg"]})
+    # --- several establishments on ONE connection while the BMC's advertised set changes in between: every
+    # establishment must choose against what the BMC advertises at that moment, not against anything seen earlier ---
+    seqs = []
+    for _ in range(40 if ch.quick() else 400):
+        pref = rng.choice([[], [UNIVERSE[1], UNIVERSE[0]], [UNIVERSE[2], UNIVERSE[1], UNIVERSE[0]], [UNIVERSE[3], UNIVERSE[1]]])
+        advs = [rng.choice(subsets) for _ in range(3)]
+        steps = []
+        for adv in advs:
+            steps.append({"op": "bmcset", "bmcset": {"suites": [[IDS[x], x[0], x[1], x[2]] for x in adv]}})
+            steps.append(hs.open_step(suites=pref))
+            steps.append({"op": "close", "script": ["ok"]})
+        seqs.append((pref, advs, {"bmc": conn.default_bmc(seed=6, suites=[[IDS[x], x[0], x[1], x[2]] for x in advs[0]]), "timeout_ms": 40, "steps": steps}))
+    souts = conn.run_scenarios([x[2] for x in seqs])
+    for (pref, advs, scn), out in zip(seqs, souts):
+        for k, adv in enumerate(advs):
+            res = out["steps"][3 * k + 1]
+            desc = {"kind": "c12-sequence", "pref": [list(x) for x in pref], "adv": [list(x) for x in adv], "establishment": k + 1}
+            ch.note_case("c12-sequence", "%s|%s|%d" % (pref, advs, k))
+            if res.get("panic"):
+                ch.violation(dict(desc, kind="panic"), {"scenario": scn, "panic": res["panic"]}); continue
+            want, _ = expected([tuple(x) for x in pref], [tuple(x) for x in adv])
+            opens = [e for e in res["bmc"] if e["kind"] == "opensession"]
+            proposed = None
+            if opens:
+                pl = bytes.fromhex(opens[0]["payload"]); proposed = (pl[12], pl[20], pl[28])
+            if want is None:
+                if res["err"] != "ErrNoSupportedCipherSuite" or opens:
+                    ch.violation(desc, {"scenario": scn, "what": "establishment %d: expected ErrNoSupportedCipherSuite and no proposal (advertised now: %s)" % (k + 1, adv),
+                                        "err": res["err"], "proposed": proposed})
+            elif proposed != want or res["err"] != "nil":
+                ch.violation(desc, {"scenario": scn, "what": "establishment %d proposed %s (err %s); the first preference advertised NOW is %s" % (k + 1, proposed, res["err"], want)})
     ch.exhaustive = True
     ch.extra["selection_cases"] = nsel
     return ch.finish(rule=RULE, assumptions=["as C01"])
